@@ -407,6 +407,11 @@ def e3(prog: Program, chk: Check) -> None:
                     "the stored transform is not the (unmodified) eigenvector output", n.ast)
         if t == "self._coupling_operator" and ctx_nondiag == [False]:
             v = n.ast.value
+            if isinstance(v, ast.Name):
+                # the diagonal matrix held in a local first
+                d_ = du.unique_value(n.id, v.id)
+                if d_ is not None and d_.value is not None and not d_.sel:
+                    v = d_.value
             inner = v.args[0] if isinstance(v, ast.Call) and (dotted(v.func) or "").endswith("diag") \
                 and v.args else None
             ok = isinstance(inner, ast.Name) and pos.get(inner.id) == 0 and \
@@ -419,6 +424,20 @@ def e3(prog: Program, chk: Check) -> None:
                 (dotted(n.ast.value.func) or "").split(".")[-1] in ("identity", "eye")
             chk.add("E3", u, f"diagonal operator: self._unitary = {norm(n.ast.value)}", ok, "", n.ast)
     rec = False
+    # a local that is stored as self._unitary / self._coupling_operator stands for it
+    stored_as = {}
+    for st in walk_local(u.node):
+        if isinstance(st, ast.Assign):
+            for t_ in st.targets:
+                pairs_ = list(zip(t_.elts, st.value.elts)) if isinstance(t_, (ast.Tuple, ast.List)) and \
+                    isinstance(st.value, (ast.Tuple, ast.List)) and len(t_.elts) == len(st.value.elts) \
+                    else [(t_, st.value)]
+                for tt, vv in pairs_:
+                    if dotted(tt) in ("self._unitary", "self._coupling_operator") and isinstance(vv, ast.Name):
+                        stored_as.setdefault(vv.id, set()).add(dotted(tt))
+
+    def is_(e, attr):
+        return dotted(e) == attr or (isinstance(e, ast.Name) and stored_as.get(e.id) == {attr})
     for st in walk_local(u.node):
         if isinstance(st, ast.Assert) and isinstance(st.test, ast.Call) and \
                 (dotted(st.test.func) or "").endswith("allclose") and len(st.test.args) >= 2:
@@ -432,10 +451,10 @@ def e3(prog: Program, chk: Check) -> None:
                     fac.insert(0, cur.right)
                     cur = cur.left
                 fac.insert(0, cur)
-                if len(fac) == 3 and dotted(fac[0]) == "self._unitary" and \
-                        dotted(fac[1]) == "self._coupling_operator" and \
+                if len(fac) == 3 and is_(fac[0], "self._unitary") and \
+                        is_(fac[1], "self._coupling_operator") and \
                         adjoint_base(fac[2]) is not None and \
-                        dotted(adjoint_base(fac[2])) == "self._unitary":
+                        is_(adjoint_base(fac[2]), "self._unitary"):
                     rec = True
     chk.add("E3", u, "assert O == U D U^dagger", rec,
             "" if rec else "the reconstruction check of the decomposition is gone")
